@@ -683,7 +683,7 @@ SPECS["C07"] = ("""property C07: filter JSON parsing is faithful, order-independ
    MEMBERS with arbitrary JSON values (skipped, state untouched).  Faithfulness on texts with whitespace,
    alternative escapes and duplicates is decided per run by the differential check (all 52x52 letter
    pairs, member orders, escapes, boundaries; python json as independent parser).""",
-  CODIMP + "\nFrom Coq Require Import Permutation.\nFrom Pocket Require Import EscapeRoundTrip JsonRoundTrip FilterRoundTrip JsonSkip FilterAnyOrder Spelling.", [
+  CODIMP + "\nFrom Coq Require Import Permutation.\nFrom Pocket Require Import EscapeRoundTrip JsonRoundTrip FilterRoundTrip JsonSkip FilterAnyOrder Spelling FilterGaps.", [
   ("C07_integer_value_partial",
    "forall l, read_u64 l = let '(ds, rest) := span_digits l in\n    match ds with [] => Err EJson | _ => if num_of ds <=? 18446744073709551615 then Ok (num_of ds, rest) else Err EJson end",
    "read_u64_spec", ""),
@@ -703,7 +703,27 @@ SPECS["C07"] = ("""property C07: filter JSON parsing is faithful, order-independ
   ("C07_order_independent",
    "forall ms ms' tail tail' out, members_wf ms -> Permutation ms ms' -> tags_of ms = tags_of ms' ->\n    filter_size (filter_of ms) <= len out ->\n    exists c c' enc buf, filter_from_json (members_text ms tail) out = Ok (c, enc, buf) /\\\n                         filter_from_json (members_text ms' tail') out = Ok (c', enc, buf)",
    "filter_order_independent", "two texts with the same members in different orders give the same bytes"),
+  ("C07_loop_heads_ignore_gaps",
+   "forall g, gap g ->\n    (forall fuel st l, filter_members fuel st (g ++ l) = filter_members fuel st l) /\\\n    (forall fuel l out e n, copy_hex32 fuel (g ++ l) out e n = copy_hex32 fuel l out e n) /\\\n    (forall fuel l out e n, copy_kinds fuel (g ++ l) out e n = copy_kinds fuel l out e n) /\\\n    (forall fuel l out e n, copy_tag_values fuel (g ++ l) out e n = copy_tag_values fuel l out e n)",
+   "loop_heads_ignore_gaps", "WHITE SPACE (and commas) AT THE LOOP HEADS, for EVERY text, state and fuel: a run of white space / commas in front of a member or the closing brace (member loop), or in front of an array item or the closing bracket (ids/authors, kinds, tag values), never changes what that loop returns"),
+  ("C07_leading_white_space",
+   "forall w g r out c enc buf, wsrun w -> gap g ->\n    filter_from_json (123 :: r) out = Ok (c, enc, buf) ->\n    filter_from_json (w ++ 123 :: g ++ r) out = Ok (len w + len g + c, enc, buf)",
+   "filter_from_json_leading_gap", "for EVERY filter text the parser accepts (any spelling, not only the library's): white space before the opening brace and white space / commas right after it change neither the encoded filter nor the buffer, and add exactly their length to the consumed count (uses: more fuel never changes an answer, consumption is bounded by the input)"),
   ], """
+(* non-vacuity: a text with leading white space and a gap after the brace, against the canonical text *)
+Example C07_gap_example :
+  let ms := [MUntil 99; MKinds [1; 30023]; MIds [repeat 1 32]] in
+  let w := [32; 10; 9; 13] in let g := [32; 44; 10] in
+  wsrun w /\\ gap g /\\
+  (exists r, members_text ms [7] = 123 :: r /\\
+     filter_from_json (w ++ 123 :: g ++ r) (repeat 170 (N.to_nat (filter_size (filter_of ms)) + 3))
+     = Ok (len w + len g + (len (members_text ms [7]) - 1), enc_filter (filter_of ms), enc_filter (filter_of ms) ++ [170; 170; 170])).
+Proof.
+  cbv zeta. refine (conj _ (conj _ _)).
+  - repeat constructor.
+  - repeat constructor.
+  - eexists. split; [reflexivity|]. vm_compute. reflexivity.
+Qed.
 (* non-vacuity with unknown members: a NIP-50 search member, a two-letter #ee key with a nested value *)
 Example C07_unknown_example :
   let te : tagspec := (101, ([[97; 34]; []], [[97; 92; 34]; []])) in
